@@ -110,6 +110,8 @@ impl Write for WritableFile {
         self.content.flush()?;
         let mut content = self.content.get_ref().clone();
         swap(&mut content, self.content.get_mut());
+        #[cfg(feature = "verif-hooks")]
+        crate::verif_hooks::yield_point("flush:write");
         let mut handle = self.fs.write().unwrap();
         let previous_file = handle.files.get(&self.destination);
 
@@ -190,12 +192,16 @@ impl Seek for ReadableFile {
 
 impl FileSystem for MemoryFS {
     fn read_dir(&self, path: &str) -> VfsResult<Box<dyn Iterator<Item = String> + Send>> {
+        #[cfg(feature = "verif-hooks")]
+        crate::verif_hooks::yield_point("read_dir:read");
         let handle = self.handle.read().unwrap();
         let entries = list_dir(&handle.files, path)?;
         Ok(Box::new(entries.into_iter()))
     }
 
     fn create_dir(&self, path: &str) -> VfsResult<()> {
+        #[cfg(feature = "verif-hooks")]
+        crate::verif_hooks::yield_point("create_dir:write");
         let map = &mut self.handle.write().unwrap().files;
         ensure_has_parent(map, path)?;
         let entry = map.entry(path.to_string());
@@ -223,6 +229,8 @@ impl FileSystem for MemoryFS {
     }
 
     fn open_file(&self, path: &str) -> VfsResult<Box<dyn SeekAndRead + Send>> {
+        #[cfg(feature = "verif-hooks")]
+        crate::verif_hooks::yield_point("open_file:write");
         let mut handle = self.handle.write().unwrap();
         let file = handle
             .files
@@ -238,6 +246,8 @@ impl FileSystem for MemoryFS {
 
     fn create_file(&self, path: &str) -> VfsResult<Box<dyn SeekAndWrite + Send>> {
         let content = Arc::new(Vec::<u8>::new());
+        #[cfg(feature = "verif-hooks")]
+        crate::verif_hooks::yield_point("create_file:write");
         let mut handle = self.handle.write().unwrap();
         ensure_has_parent(&handle.files, path)?;
         if let Some(existing) = handle.files.get(path) {
@@ -262,6 +272,8 @@ impl FileSystem for MemoryFS {
     }
 
     fn append_file(&self, path: &str) -> VfsResult<Box<dyn SeekAndWrite + Send>> {
+        #[cfg(feature = "verif-hooks")]
+        crate::verif_hooks::yield_point("append_file:write");
         let handle = self.handle.write().unwrap();
         let file = handle.files.get(path).ok_or(VfsErrorKind::FileNotFound)?;
         ensure_file(file)?;
@@ -276,6 +288,8 @@ impl FileSystem for MemoryFS {
     }
 
     fn metadata(&self, path: &str) -> VfsResult<VfsMetadata> {
+        #[cfg(feature = "verif-hooks")]
+        crate::verif_hooks::yield_point("metadata:read");
         let guard = self.handle.read().unwrap();
         let files = &guard.files;
         let file = files.get(path).ok_or(VfsErrorKind::FileNotFound)?;
@@ -289,6 +303,8 @@ impl FileSystem for MemoryFS {
     }
 
     fn set_creation_time(&self, path: &str, time: SystemTime) -> VfsResult<()> {
+        #[cfg(feature = "verif-hooks")]
+        crate::verif_hooks::yield_point("set_creation_time:write");
         let mut guard = self.handle.write().unwrap();
         let files = &mut guard.files;
         let file = files.get_mut(path).ok_or(VfsErrorKind::FileNotFound)?;
@@ -299,6 +315,8 @@ impl FileSystem for MemoryFS {
     }
 
     fn set_modification_time(&self, path: &str, time: SystemTime) -> VfsResult<()> {
+        #[cfg(feature = "verif-hooks")]
+        crate::verif_hooks::yield_point("set_modification_time:write");
         let mut guard = self.handle.write().unwrap();
         let files = &mut guard.files;
         let file = files.get_mut(path).ok_or(VfsErrorKind::FileNotFound)?;
@@ -309,6 +327,8 @@ impl FileSystem for MemoryFS {
     }
 
     fn set_access_time(&self, path: &str, time: SystemTime) -> VfsResult<()> {
+        #[cfg(feature = "verif-hooks")]
+        crate::verif_hooks::yield_point("set_access_time:write");
         let mut guard = self.handle.write().unwrap();
         let files = &mut guard.files;
         let file = files.get_mut(path).ok_or(VfsErrorKind::FileNotFound)?;
@@ -319,10 +339,14 @@ impl FileSystem for MemoryFS {
     }
 
     fn exists(&self, path: &str) -> VfsResult<bool> {
+        #[cfg(feature = "verif-hooks")]
+        crate::verif_hooks::yield_point("exists:read");
         Ok(self.handle.read().unwrap().files.contains_key(path))
     }
 
     fn remove_file(&self, path: &str) -> VfsResult<()> {
+        #[cfg(feature = "verif-hooks")]
+        crate::verif_hooks::yield_point("remove_file:write");
         let mut handle = self.handle.write().unwrap();
         let file = handle.files.get(path).ok_or(VfsErrorKind::FileNotFound)?;
         ensure_file(file)?;
@@ -331,6 +355,8 @@ impl FileSystem for MemoryFS {
     }
 
     fn remove_dir(&self, path: &str) -> VfsResult<()> {
+        #[cfg(feature = "verif-hooks")]
+        crate::verif_hooks::yield_point("remove_dir:write");
         let mut handle = self.handle.write().unwrap();
         if !list_dir(&handle.files, path)?.is_empty() {
             return Err(VfsErrorKind::Other("Directory to remove is not empty".into()).into());
